@@ -78,8 +78,8 @@ def _execute(prop, scenario, params, seed=None, replay=None, gates=()):
                 mod.run(sim)
             except StopRun:
                 pass
-            except HarnessError:
-                raise
+            except HarnessError as e:
+                raise HarnessError('%s\n-- trace tail --\n%s' % (e, '\n'.join(render_trace(sim)[-30:])))
             except RecursionError as e:
                 raise HarnessError('recursion: %s' % e)
             except Exception as e:
@@ -452,7 +452,8 @@ def write_evidence(prop, spec, tier, verif_seed, agg, wall, known_seen, new_viol
         distinct_nontrivial=len(agg['fps']),
         rule=spec.get('rule', '') + ' A run is non-trivial when at least one fault or reach probe fired in it; '
              'distinct = distinct fingerprints (hash of the sequence of scheduler action labels with numbers removed '
-             'and repeats collapsed) among non-trivial runs.',
+             'and repeats collapsed, plus the scenario-selected observations such as delivery sizes and reply kinds) '
+             'among non-trivial runs.',
         samples=agg['samples'][:3] or [dict(note='no non-trivial sample collected')],
         units_planned=units,
         units_run=agg['units'],
